@@ -145,7 +145,7 @@ class Engine(Interp):
             # value tags are relative to the last loop head (or the root entry): forget overrides
             ms.contents = ()
             if ms.examined is not None:
-                ms.examined = (cw(ms.examined[0]), pos(ms.examined[1]), pos(ms.examined[2]))
+                ms.examined = (cw(ms.examined[0]), pos(ms.examined[1]), pos(ms.examined[2])) + tuple(ms.examined[3:])
             if ms.pending is not None:
                 ms.pending = (pos(ms.pending[0]), cw(ms.pending[1]) if ms.pending[1] is not None else None)
         for k in sorted(s2.pairs, key=str):
@@ -171,6 +171,12 @@ class Engine(Interp):
     def loop_join(self, table, key, st):
         """at a loop head: returns the state to continue with, or None when subsumed"""
         hook = getattr(self, 'iteration_hook', None)
+        if key in st.loops:
+            depth = st.loops.index(key)
+            st.loops = st.loops[:depth + 1]
+        else:
+            depth = len(st.loops)
+            st.loops = st.loops + (key,)
         if hook is not None and not st.unwinding and table.get(key):
             # (a non-empty table entry: this activation of the loop has been through its head before)
             ev = st.events
@@ -182,7 +188,13 @@ class Engine(Interp):
                     break
             if last is not None:
                 # one complete iteration of this loop: events since the head was last left
-                hook(key, st, ev[last + 1:])
+                hook(key, st, ev[last + 1:], depth)
+        for ms in st.maps.values():
+            ex = ms.examined
+            if ex is not None and len(ex) > 3 and key in ex[3] and ex[3][-1] != key:
+                # a scan record begun inside an iteration of this loop, by a loop nested in it: the iteration is
+                # over, and so is the use of that record (dropping a fact is always sound)
+                ms.examined = None
         try:
             shape, st = self.canonicalise(st, 'h%s' % (key,))
         except TypeError:
@@ -212,6 +224,13 @@ class Engine(Interp):
         st.events = e['events']
         self.last_shape = shape
         return st
+
+    @staticmethod
+    def end_loops(st, pred):
+        for i, k in enumerate(st.loops):
+            if pred(k):
+                st.loops = st.loops[:i]
+                return
 
     def join_all(self, table, key, states):
         """join a batch of states arriving at the same loop head; one survivor per shape"""
@@ -289,6 +308,7 @@ class Engine(Interp):
 
     def run_cfg(self, st, body, fid):
         heads = body.loop_heads()
+        lbodies = body.loop_bodies() if heads else {}
         utargets = self.unwind_targets(body)
         useen = {}
         table = {}
@@ -338,6 +358,12 @@ class Engine(Interp):
             self.stats['blocks'] += 1
             if self.stats['blocks'] > MAX_STEPS:
                 raise Budget()
+            if s.loops and heads:
+                # leaving a loop of this activation ends it (and whatever was nested in it)
+                for i, k in enumerate(s.loops):
+                    if len(k) == 2 and k[0] == fid and k[1] in lbodies and bi not in lbodies[k[1]]:
+                        s.loops = s.loops[:i]
+                        break
             self.in_unwind = s.unwinding
             blk = body.blocks[bi]
             states = [s]
@@ -352,6 +378,8 @@ class Engine(Interp):
                         if r[0] == 'goto':
                             work.append((r[1], r[2]))
                         else:
+                            if r[1].loops and heads:
+                                self.end_loops(r[1], lambda k: len(k) == 2 and k[0] == fid and k[1] in lbodies)
                             results.append(r)
             except Unproven as e:
                 self.violate('SHAPE', 'unproven', 'interpreter', str(e))
@@ -985,6 +1013,7 @@ class Engine(Interp):
             if a.zone.sat:
                 nf = slots.plus(a, fr, 1)
                 self.store(a, ptr, ('sliceit', mid, nf, bk, mut))
+                a.log('adv', mid, fr)
                 out.append(('ret', a, some(('ref', mut, ('mu', mid, fr)))))
             st.zone.add_le(bk, fr)
             if st.zone.sat:
